@@ -80,7 +80,14 @@ func NewStrListDecoder(reuseRecords bool) *StrListDecoder {
 	return d
 }
 
+// maxPrealloc caps how many elements a decoder allocates up front on the word of a count read
+// from the input; slices grow by append beyond that, so memory stays proportional to the data.
+const maxPrealloc = 1 << 12
+
 func (d *StrListDecoder) strSlice(n uint32) []string {
+	if n > maxPrealloc {
+		n = maxPrealloc
+	}
 	if d.strs != nil {
 		if n > uint32(cap(d.strs)) {
 			d.strs = make([]string, 0, n)
